@@ -547,6 +547,60 @@ class Program:
             self._callgraph = cg
         return self._callgraph
 
+    def helper_closure(self, names, file):
+        """names plus the static helpers of `file` that are private to them: a static function whose address is
+        never taken and all of whose call sites lie in functions already in the set.  Extracting part of an
+        allowed function into such a helper does not widen who may do what.  Returns a set of names."""
+        allowed = set(names)
+        cg = self.callgraph()
+        callers = {}
+        for f in self.functions.values():
+            for d in cg.get(f.key, ()):
+                callers.setdefault(d.key, set()).add(f)
+        taken = set()
+        for f in self.functions.values():
+            for n in f.nodes:
+                if n["k"] == "DeclRefExpr" and n.get("dk") == "fn":
+                    taken.add(n["name"])
+        # functions whose name appears as a DeclRefExpr other than as the callee of a call
+        called_only = set()
+        for f in self.functions.values():
+            for i, n in enumerate(f.nodes):
+                if n["k"] == "CallExpr" and "callee" in n:
+                    called_only.add(n["callee"])
+        changed = True
+        while changed:
+            changed = False
+            for g in self.fns_in(file):
+                if g.name in allowed or not g.static:
+                    continue
+                cs = callers.get(g.key, set())
+                if not cs or not all(c.name in allowed and c.file == file for c in cs):
+                    continue
+                if self._address_taken(g):
+                    continue
+                allowed.add(g.name)
+                changed = True
+        return allowed
+
+    def _address_taken(self, g):
+        """Is g referenced other than as the direct callee of a call?"""
+        for f in self.functions.values():
+            if f.file != g.file and g.static:
+                continue
+            for i, n in enumerate(f.nodes):
+                if n["k"] == "DeclRefExpr" and n.get("dk") == "fn" and n.get("name") == g.name:
+                    # walk up through casts to the parent: callee position of a CallExpr?
+                    j = i
+                    par = f.parent(j)
+                    while par is not None and f.nodes[par]["k"] in ("ImplicitCastExpr", "ParenExpr"):
+                        j, par = par, f.parent(par)
+                    if par is None or f.nodes[par]["k"] != "CallExpr" or f.nodes[par].get("fnexpr", f.nodes[par]["c"][0] if f.nodes[par]["c"] else -1) != j:
+                        if not (par is not None and f.nodes[par]["k"] == "CallExpr" and f.nodes[par].get("callee") == g.name
+                                and j not in f.nodes[par].get("args", [])):
+                            return True
+        return False
+
     def reachable_fns(self, roots, extra_edges=None):
         cg = self.callgraph()
         seen = {}
